@@ -393,10 +393,14 @@ func (sh *shard) execUpd(tc tcase, stranger bool, doProbe bool) {
 	}
 
 	for _, ic := range tc.fund {
-		f.ch.VerifRegisterSubChannelFunding(ic.ID, ic.Bals)
+		if !ic.Pre {
+			f.ch.VerifRegisterSubChannelFunding(ic.ID, ic.Bals)
+		}
 	}
 	for _, ic := range tc.settle {
-		f.ch.VerifRegisterSubChannelSettlement(ic.ID, ic.Bals)
+		if !ic.Pre {
+			f.ch.VerifRegisterSubChannelSettlement(ic.ID, ic.Bals)
+		}
 	}
 	actx, cancel := context.WithCancel(context.Background())
 	var wg sync.WaitGroup
@@ -456,12 +460,12 @@ func (sh *shard) execUpd(tc tcase, stranger bool, doProbe bool) {
 		done, c2 := context.WithCancel(context.Background())
 		c2()
 		for _, ic := range tc.fund {
-			if !ic.Awaited {
+			if !ic.Awaited && !ic.Keep {
 				_ = f.ch.VerifAwaitSubChannelFunding(done, ic.ID)
 			}
 		}
 		for _, ic := range tc.settle {
-			if !ic.Awaited {
+			if !ic.Awaited && !ic.Keep {
 				_ = f.ch.VerifAwaitSubChannelWithdrawal(done, ic.ID)
 			}
 		}
@@ -606,6 +610,94 @@ func (sh *shard) execValidate(tc tcase, msg client.ChannelUpdateProposal, before
 	sh.count(tc.class+"/validate", []string{"ok", "error", "panic"}[code], tc.class+"/validate/"+fmt.Sprint(code))
 	sh.cases = append(sh.cases, hx.App("HVal", f.ctxTerm(before, nil, nil, false), f.reqTerm(msg), hx.N(uint64(code))))
 	sh.index = append(sh.index, tc.class+"/validate")
+}
+
+// ---------- an interceptor registered earlier: the parent advances before the intercepted update ----------
+
+// execStale registers a funding or settlement interceptor, lets the parent channel advance by one or
+// two accepted updates (ordinary payments, the funding of another sub-channel) while the interceptor
+// stays registered, and then delivers the intercepted update built for the state at registration, for
+// the state at arrival, or a mixture. The update must be judged against the parent state at arrival.
+func (sh *shard) execStale(doProbe bool) {
+	f := sh.f
+	r := f.r
+	peer := f.peer()
+	f.actingContext(1 + r.Intn(2))
+	cur0 := f.snapshot().Current.State
+	funding := r.Intn(2) == 0
+	ic := icept{Pre: true, Keep: true}
+	var k0 int
+	if funding {
+		ic.ID, ic.Bals = f.g.ID(), f.part(cur0.Balances)
+		f.ch.VerifRegisterSubChannelFunding(ic.ID, ic.Bals)
+	} else {
+		k0 = r.Intn(len(cur0.Locked))
+		ic.ID, ic.Bals = cur0.Locked[k0].ID, f.split(cur0.Locked[k0].Bals)
+		f.ch.VerifRegisterSubChannelSettlement(ic.ID, ic.Bals)
+	}
+	withIc := func(tc *tcase, aw, keep bool) {
+		c := ic
+		c.Awaited, c.Keep = aw, keep
+		if funding {
+			tc.fund = append(tc.fund, c)
+		} else {
+			tc.settle = append(tc.settle, c)
+		}
+	}
+	expect := func(cur *channel.State) *channel.State {
+		if funding {
+			return fundState(cur, ic.ID, ic.Bals, nil)
+		}
+		return settleState(cur, ic.ID, ic.Bals)
+	}
+	steps := 1 + r.Intn(2)
+	for i := 0; i < steps; i++ {
+		cur := f.snapshot().Current.State
+		var tc tcase
+		if r.Intn(3) == 0 {
+			// another sub-channel gets funded in between: the locked list changes
+			id, b := f.g.ID(), f.part(cur.Balances)
+			m := f.signedUpd(fundState(cur, id, b, nil), peer)
+			tc = tcase{class: "st-step-fund-other", accept: true, msg: &m, fund: []icept{{ID: id, Bals: b, Awaited: true}},
+				site: "client.Channel.registerSubChannelFunding"}
+		} else {
+			m := f.signedUpd(f.pay(cur, peer, false), peer)
+			tc = tcase{class: "st-step-pay", accept: true, msg: &m, site: "client.Channel.handleUpdateReq"}
+		}
+		withIc(&tc, false, true)
+		sh.execUpd(tc, false, false)
+		if f.burnt {
+			return
+		}
+	}
+	cur := f.snapshot().Current.State
+	old := expect(cur0)
+	old.Version = cur.Version + 1
+	fresh := expect(cur)
+	variants := []string{"old", "old", "new", "bals-old-locked-new", "bals-new-locked-old"}
+	v := variants[r.Intn(len(variants))]
+	var s *channel.State
+	switch v {
+	case "old":
+		s = old
+	case "new":
+		s = fresh
+	case "bals-old-locked-new":
+		s = fresh.Clone()
+		s.Balances = old.Balances.Clone()
+	default:
+		s = fresh.Clone()
+		s.Locked = old.Clone().Locked
+	}
+	m := f.signedUpd(s, peer)
+	kind := "settle"
+	site := "client.Channel.registerSubChannelSettlement"
+	if funding {
+		kind, site = "fund", "client.Channel.registerSubChannelFunding"
+	}
+	tc := tcase{class: "st-" + kind + "-" + v, accept: true, msg: &m, site: site}
+	withIc(&tc, true, false)
+	sh.execUpd(tc, false, doProbe)
 }
 
 // ---------- the UpdateResponder used more than once ----------
@@ -850,7 +942,11 @@ func runShard(prop string, seed int64, idx int, n int, slow int, realOpen, unawa
 		case pick < w[0]:
 			sh.execUpd(f.ordinaryCase(cur), r.Intn(10) == 0, doProbe)
 		case pick < w[1]:
-			sh.execUpd(f.fundingCase(cur), false, doProbe)
+			if r.Intn(4) == 0 {
+				sh.execStale(doProbe)
+			} else {
+				sh.execUpd(f.fundingCase(cur), false, doProbe)
+			}
 		case pick < w[2]:
 			if len(cur.Locked) == 0 || s.Phase != channel.Acting {
 				f.actingContext(1 + r.Intn(3))
